@@ -7,7 +7,7 @@ CFG = {
     "theory_files": ["theories/Base/Bytes.v", "theories/Base/BytesProofs.v", "theories/Formats/Gltf.v",
                      "theories/Formats/GltfProofs.v", "theories/Formats/GltfExtProofs.v",
                      "theories/Formats/GltfDedupProofs.v", "theories/Formats/GltfNodeProofs.v",
-                     "theories/Formats/GltfTexProofs.v",
+                     "theories/Formats/GltfTexProofs.v", "theories/Formats/GltfFinalProofs.v",
                      "theories/Formats/GltfGlbProofs.v"],
     "level_text": "Coq theorems about a state-machine model of the glTF writer (WriteVector2/3/4, WriteIndices, AddTexture, "
                   "AddMaterial, AddMesh, AddScene, AddLight, ToGLTF, WriteGLB): for every scene the buffer views tile the "
